@@ -190,6 +190,14 @@ RESERVED_PLACEMENTS = [
 ]
 
 
+_NORM_JOB = None
+
+
+def _norm_one(i):
+    reqs, resps = _NORM_JOB
+    return vlib.static_record("r%d" % i, reqs[i], resps[i])
+
+
 def spec_hash():
     h = hashlib.sha256()
     for f in sorted(os.listdir(vlib.SPEC)):
@@ -234,13 +242,22 @@ def run(seed, tier, extra_cases=None, use_cache=True):
     bycase = {}
     outcomes = {}
     v8jobs = []
+    # normalisation of the recorded trees is the Python-side bottleneck: spread it over the cores
+    import multiprocessing as mp
+    global _NORM_JOB
+    _NORM_JOB = (reqs, resps)
+    if len(cs) > 400:
+        with mp.get_context("fork").Pool(min(vlib.NCPU, 16)) as pool:
+            allrecs = pool.map(_norm_one, range(len(cs)), chunksize=64)
+    else:
+        allrecs = [_norm_one(i) for i in range(len(cs))]
     for i, (c, rq, rs) in enumerate(zip(cs, reqs, resps)):
         rid = "r%d" % i
         outcomes[rs.get("outcome", "abort")] = outcomes.get(rs.get("outcome", "abort"), 0) + 1
         bycase[rid] = {"name": c["name"], "code": c["code"], "config": c["config"], "file": rq["file"],
                        "reader": c.get("reader"), "outcome": rs.get("outcome"),
                        "error": rs.get("error"), "content": rs.get("content"), "metrics": rs.get("metrics")}
-        rec = vlib.static_record(rid, rq, rs)
+        rec = allrecs[i]
         recs.append(rec)
         if "cfg" in rec:
             bycase[rid]["eff"] = rec["cfg"]
